@@ -14,6 +14,9 @@ pub assume_specification [crate::dns::PacketFlag::from_bits_truncate] (bits: u16
     ensures pf_bits(r) == bits & 0x87B0u16;
 pub assume_specification [crate::dns::PacketFlag::bits] (f: &crate::dns::PacketFlag) -> (r: u16)
     ensures r == pf_bits(*f), r & 0x87B0u16 == r;
+/// a flag set only holds the seven defined bits (bitflags invariant; Kani: header_flags_algebra `a.bits() & !FLAG_BITS == 0`)
+#[verifier::external_body]
+pub proof fn lemma_pf_bits(f: crate::dns::PacketFlag) ensures pf_bits(f) & 0x87B0u16 == pf_bits(f) {}
 
 /// RFC 1035 4.1.1 flags word: QR(0x8000) OPCODE(0x7800) AA TC RD RA Z(0x0040) AD CD RCODE(0x000F)
 pub open spec fn hdr_flags(data: Seq<u8>) -> u16 { be16(data[2], data[3]) }
